@@ -1642,6 +1642,18 @@ class Interp:
             return self.binary(base, args[0], args[1], ln)
         if base in ("vsplit", "split", "array_split") and len(args) == 2 and isinstance(args[0], Vec) and args[1] == 2 and kwargs.get("axis", 0) == 0:
             return [Row2D(args[0].x, "np.%s" % base), Row2D(args[0].y, "np.%s" % base)]
+        if base in ("place", "put", "putmask") and len(args) == 3:
+            vals = args[2]
+            if base in ("place", "putmask") and _is_conc(vals) and self.is_mask(args[1]):
+                site = getattr(self, "_call_site", None)
+                if site is not None and site[0] is node and isinstance(node.args[0], ast.Name) and node.args[0].id in site[1] and (self.dom.is_value(args[0]) or _is_conc(args[0])):
+                    site[1][node.args[0].id] = self.dom.where(args[1], self.lift(vals), self.lift(args[0]))      # arr[mask] = constant
+                    return None
+            e = AnalysisError("%s:%d np.%s with an array of values" % (func.qualname, ln, base))
+            if base == "place":
+                e.violation = ("POINTWISE-SCATTER", func.qualname, "`%s` (line %d): np.place puts the FIRST N entries of the values array, in order, at the N positions where the mask holds -- not the entries at those positions (that is `arr[mask] = vals[mask]` / np.where / np.copyto(..., where=)): the value stored for an entry depends on how many masked entries precede it, i.e. on the other faces / cells" % (unparse(node)[:60], ln),
+                               "np-place", {"C01", "C02", "C03", "C10", "C12", "C13", "C14", "C15", "C16", "C17", "C18", "C11"})
+            raise e
         if base == "clip" and len(args) == 3 and not kwargs:
             # numpy's definition: minimum(a_max, maximum(a, a_min)) -- with a_min > a_max the result is a_max
             lo, hi = args[1], args[2]
